@@ -1,3 +1,430 @@
+//! C02 part (b): explicit-state exploration of well-formed edit histories through the public
+//! builder / edit APIs.  In every state: emit must not panic and the output must validate.
+
 use crate::core::*;
-pub fn recheck(_c: &Case) -> Vec<Violation> { vec![] }
-pub fn run_model(_args: &Args, _ev: &mut Ev) -> Vec<Violation> { vec![] }
+use crate::hist::*;
+use crate::pipe::*;
+use serde_json::json;
+use walrus::ir::Value;
+use walrus::*;
+
+#[derive(Clone, Copy, Debug, PartialEq, Eq)]
+pub enum EOp {
+    AddFunc(u8, u8),
+    ExportNewestFunc,
+    ExportFirst(u8),
+    AddImport(u8),
+    AddGlobal(u8),
+    AddData(u8),
+    AddElem(u8),
+    DeleteFirstExport,
+    DeleteNewestUnreferenced,
+    ReplaceImported(u8),
+    ReplaceExported(u8),
+    SetStart,
+    ClearStart,
+    Gc,
+}
+
+pub fn all_ops() -> Vec<EOp> {
+    let mut v = vec![];
+    for s in 0..3 {
+        for b in 0..5 {
+            v.push(EOp::AddFunc(s, b));
+        }
+    }
+    v.push(EOp::ExportNewestFunc);
+    for k in 0..3 {
+        v.push(EOp::ExportFirst(k));
+    }
+    for k in 0..4 {
+        v.push(EOp::AddImport(k));
+    }
+    for k in 0..3 {
+        v.push(EOp::AddGlobal(k));
+    }
+    for k in 0..2 {
+        v.push(EOp::AddData(k));
+    }
+    for k in 0..3 {
+        v.push(EOp::AddElem(k));
+    }
+    v.push(EOp::DeleteFirstExport);
+    v.push(EOp::DeleteNewestUnreferenced);
+    for k in 0..2 {
+        v.push(EOp::ReplaceImported(k));
+        v.push(EOp::ReplaceExported(k));
+    }
+    v.push(EOp::SetStart);
+    v.push(EOp::ClearStart);
+    v.push(EOp::Gc);
+    v
+}
+
+#[derive(Clone, Copy, Debug)]
+enum Added {
+    Func(FunctionId),
+    Global(GlobalId),
+    Data(DataId),
+    Elem(ElementId),
+}
+
+pub struct EObj {
+    m: Module,
+    serial: i32,
+    /// entities added by this history that nothing refers to yet (safe to delete)
+    unreferenced: Vec<Added>,
+    newest_func: Option<FunctionId>,
+}
+
+pub struct EditSubject<'a> {
+    pub wasm: &'a [u8],
+}
+
+fn const_for(b: &mut InstrSeqBuilder, t: ValType, k: i32) {
+    match t {
+        ValType::I32 => {
+            b.i32_const(k);
+        }
+        ValType::I64 => {
+            b.i64_const(k as i64);
+        }
+        ValType::F32 => {
+            b.f32_const(k as f32);
+        }
+        ValType::F64 => {
+            b.f64_const(k as f64);
+        }
+        ValType::V128 => {
+            b.const_(Value::V128(k as u128));
+        }
+        ValType::Ref(r) => {
+            b.ref_null(r);
+        }
+    }
+}
+
+fn first_func_with(m: &Module, params: &[ValType], results: &[ValType]) -> Option<FunctionId> {
+    m.funcs.iter().find(|f| {
+        let t = m.types.get(f.ty());
+        t.params() == params && t.results() == results
+    }).map(|f| f.id())
+}
+
+fn apply_op(o: &mut EObj, op: &EOp) {
+    o.serial += 1;
+    let k = o.serial;
+    let m = &mut o.m;
+    match *op {
+        EOp::AddFunc(s, body) => {
+            let (params, results): (Vec<ValType>, Vec<ValType>) = match s {
+                0 => (vec![], vec![]),
+                1 => (vec![ValType::I32], vec![ValType::I32]),
+                _ => (vec![], vec![ValType::I64]),
+            };
+            let callee = first_func_with(m, &[], &[]);
+            let g = m.globals.iter().find(|g| g.ty == ValType::I32).map(|g| g.id());
+            let mem = m.memories.iter().find(|x| !x.memory64).map(|x| x.id());
+            let tab = m.tables.iter().next().map(|t| (t.id(), t.table64));
+            let args: Vec<LocalId> = params.iter().map(|t| m.locals.add(*t)).collect();
+            let mut b = FunctionBuilder::new(&mut m.types, &params, &results);
+            {
+                let mut fb = b.func_body();
+                fb.i32_const(9000 + k).drop();
+                match body {
+                    1 => {
+                        if let Some(c) = callee {
+                            fb.call(c);
+                        }
+                    }
+                    2 => {
+                        if let Some(g) = g {
+                            fb.global_get(g).drop();
+                        }
+                    }
+                    3 => {
+                        if let Some(mm) = mem {
+                            fb.i32_const(0).load(mm, ir::LoadKind::I32 { atomic: false }, ir::MemArg { align: 4, offset: 0 }).drop();
+                        }
+                    }
+                    4 => {
+                        if let Some((t, _)) = tab {
+                            fb.table_size(t).drop();
+                        }
+                    }
+                    _ => {}
+                }
+                for r in &results {
+                    const_for(&mut fb, *r, k);
+                }
+            }
+            let f = b.finish(args, &mut m.funcs);
+            o.newest_func = Some(f);
+            o.unreferenced.push(Added::Func(f));
+        }
+        EOp::ExportNewestFunc => {
+            if let Some(f) = o.newest_func.or_else(|| m.funcs.iter().next().map(|f| f.id())) {
+                if m.funcs.iter().any(|x| x.id() == f) {
+                    m.exports.add(&format!("edit{}", k), f);
+                    o.unreferenced.retain(|a| !matches!(a, Added::Func(x) if *x == f));
+                }
+            }
+        }
+        EOp::ExportFirst(kind) => match kind {
+            0 => {
+                if let Some(g) = m.globals.iter().next().map(|g| g.id()) {
+                    m.exports.add(&format!("edit{}", k), g);
+                    o.unreferenced.retain(|a| !matches!(a, Added::Global(x) if *x == g));
+                }
+            }
+            1 => {
+                if let Some(x) = m.memories.iter().next().map(|g| g.id()) {
+                    m.exports.add(&format!("edit{}", k), x);
+                }
+            }
+            _ => {
+                if let Some(x) = m.tables.iter().next().map(|g| g.id()) {
+                    m.exports.add(&format!("edit{}", k), x);
+                }
+            }
+        },
+        EOp::AddImport(kind) => match kind {
+            0 => {
+                let ty = m.types.add(&[ValType::I32], &[]);
+                m.add_import_func("edit", &format!("f{}", k), ty);
+            }
+            1 => {
+                m.add_import_global("edit", &format!("g{}", k), ValType::I32, false, false);
+            }
+            2 => {
+                m.add_import_table("edit", &format!("t{}", k), false, 1, None, RefType::Funcref);
+            }
+            _ => {
+                m.add_import_memory("edit", &format!("m{}", k), false, false, 1, None, None);
+            }
+        },
+        EOp::AddGlobal(kind) => {
+            let id = match kind {
+                0 => Some(m.globals.add_local(ValType::I32, true, false, ConstExpr::Value(Value::I32(k)))),
+                1 => {
+                    let src = m.globals.iter().find(|g| matches!(g.kind, GlobalKind::Import(_)) && g.ty == ValType::I32 && !g.mutable).map(|g| g.id());
+                    src.map(|s| m.globals.add_local(ValType::I32, false, false, ConstExpr::Global(s)))
+                }
+                _ => {
+                    let f = o.newest_func.filter(|f| m.funcs.iter().any(|x| x.id() == *f)).or_else(|| m.funcs.iter().next().map(|f| f.id()));
+                    f.map(|f| {
+                        o.unreferenced.retain(|a| !matches!(a, Added::Func(x) if *x == f));
+                        m.globals.add_local(ValType::Ref(RefType::Funcref), false, false, ConstExpr::RefFunc(f))
+                    })
+                }
+            };
+            if let Some(id) = id {
+                o.unreferenced.push(Added::Global(id));
+            }
+        }
+        EOp::AddData(kind) => {
+            let mem = m.memories.iter().find(|x| !x.memory64).map(|x| x.id());
+            if kind == 0 || mem.is_none() {
+                let id = m.data.add(DataKind::Passive, vec![k as u8; 3]);
+                o.unreferenced.push(Added::Data(id));
+            } else {
+                let mem = mem.unwrap();
+                let id = m.data.add(DataKind::Active { memory: mem, offset: ConstExpr::Value(Value::I32(0)) }, vec![k as u8; 2]);
+                m.memories.get_mut(mem).data_segments.insert(id);
+            }
+        }
+        EOp::AddElem(kind) => {
+            let f = m.funcs.iter().next().map(|f| f.id());
+            let f = match f {
+                Some(f) => f,
+                None => return,
+            };
+            o.unreferenced.retain(|a| !matches!(a, Added::Func(x) if *x == f));
+            let tab = m.tables.iter().find(|t| t.element_ty == RefType::Funcref && !t.table64 && t.initial >= 1).map(|t| t.id());
+            match (kind, tab) {
+                (0, _) | (_, None) if kind != 1 => {
+                    let id = m.elements.add(ElementKind::Passive, ElementItems::Functions(vec![f]));
+                    o.unreferenced.push(Added::Elem(id));
+                }
+                (1, _) => {
+                    m.elements.add(ElementKind::Declared, ElementItems::Functions(vec![f]));
+                }
+                (_, None) => {}
+                (_, Some(t)) => {
+                    let id = m.elements.add(ElementKind::Active { table: t, offset: ConstExpr::Value(Value::I32(0)) }, ElementItems::Functions(vec![f]));
+                    m.tables.get_mut(t).elem_segments.insert(id);
+                }
+            }
+        }
+        EOp::DeleteFirstExport => {
+            let e = m.exports.iter().next().map(|e| e.id());
+            if let Some(e) = e {
+                m.exports.delete(e);
+            }
+        }
+        EOp::DeleteNewestUnreferenced => {
+            if let Some(a) = o.unreferenced.pop() {
+                match a {
+                    Added::Func(f) => {
+                        if m.funcs.iter().any(|x| x.id() == f) {
+                            m.funcs.delete(f);
+                        }
+                        if o.newest_func == Some(f) {
+                            o.newest_func = None;
+                        }
+                    }
+                    Added::Global(g) => {
+                        if m.globals.iter().any(|x| x.id() == g) {
+                            m.globals.delete(g)
+                        }
+                    }
+                    Added::Data(d) => {
+                        if m.data.iter().any(|x| x.id() == d) {
+                            m.data.delete(d)
+                        }
+                    }
+                    Added::Elem(e) => {
+                        if m.elements.iter().any(|x| x.id() == e) {
+                            m.elements.delete(e)
+                        }
+                    }
+                }
+            }
+        }
+        EOp::ReplaceImported(kind) => {
+            let f = m.funcs.iter().find(|f| matches!(f.kind, FunctionKind::Import(_))).map(|f| f.id());
+            if let Some(f) = f {
+                let results: Vec<ValType> = m.types.get(m.funcs.get(f).ty()).results().to_vec();
+                let _ = m.replace_imported_func(f, |(b, _args)| {
+                    if kind == 0 {
+                        b.unreachable();
+                    } else {
+                        for r in &results {
+                            const_for(b, *r, k);
+                        }
+                    }
+                });
+            }
+        }
+        EOp::ReplaceExported(kind) => {
+            let f = m.exports.iter().find_map(|e| match e.item {
+                ExportItem::Function(f) if matches!(m.funcs.get(f).kind, FunctionKind::Local(_)) => Some(f),
+                _ => None,
+            });
+            if let Some(f) = f {
+                let results: Vec<ValType> = m.types.get(m.funcs.get(f).ty()).results().to_vec();
+                let _ = m.replace_exported_func(f, |(b, _args)| {
+                    if kind == 0 {
+                        b.unreachable();
+                    } else {
+                        for r in &results {
+                            const_for(b, *r, k);
+                        }
+                    }
+                });
+            }
+        }
+        EOp::SetStart => {
+            if let Some(f) = first_func_with(m, &[], &[]) {
+                m.start = Some(f);
+                o.unreferenced.retain(|a| !matches!(a, Added::Func(x) if *x == f));
+            }
+        }
+        EOp::ClearStart => m.start = None,
+        EOp::Gc => {
+            walrus::passes::gc::run(m);
+            // gc may have deleted what this history added
+            o.unreferenced.clear();
+            if let Some(f) = o.newest_func {
+                if !m.funcs.iter().any(|x| x.id() == f) {
+                    o.newest_func = None;
+                }
+            }
+        }
+    }
+}
+
+impl<'a> Subject for EditSubject<'a> {
+    type Op = EOp;
+    type Obj = EObj;
+    fn fresh(&self) -> Result<EObj, String> {
+        parse(self.wasm, &Cfg::default()).map(|m| EObj { m, serial: 0, unreferenced: vec![], newest_func: None }).map_err(|f| f.detail())
+    }
+    fn ops(&self, _h: &[EOp]) -> Vec<EOp> {
+        all_ops()
+    }
+    fn apply(&self, o: &mut EObj, op: &EOp, _at: usize) -> Result<(), Finding> {
+        apply_op(o, op);
+        Ok(())
+    }
+    fn observe(&self, mut o: EObj, hist: &[EOp]) -> (u64, Vec<Finding>) {
+        let mut fs = vec![];
+        let out = o.m.emit_wasm();
+        if let Err(e) = wmodel::validate214(&out, wmodel::FeatureSet::DEFAULT) {
+            let last = hist.last().map(|o| format!("{:?}", o)).unwrap_or_default();
+            let last: String = last.chars().take_while(|c| c.is_alphabetic()).collect();
+            fs.push(Finding {
+                sig: format!("invalid-output:after-edit:{}:{}", last, crate::props::validity::norm_verr(&e)),
+                detail: format!("after the edit history {:?} the reference validator rejects the output: {}", hist, e),
+            });
+        }
+        (wmodel::fnv(&out), fs)
+    }
+}
+
+pub fn bases() -> Vec<(String, Vec<u8>)> {
+    use wgen::families as fam;
+    vec![
+        ("empty".into(), b"\0asm\x01\0\0\0".to_vec()),
+        ("struct:ctx".into(), fam::build_struct(&[])),
+        ("funcs:[1,2,3]/chain/imp".into(), fam::build_funcs(&[1, 2, 3], 1, true)),
+        ("reach:[0,16,22]".into(), fam::build_reach(&[0, 16, 22])),
+        ("names:all".into(), fam::build_names(0, 0x1ff)),
+        ("struct:elem=40,start=2".into(), fam::build_struct(&[("elem", 40), ("start", 2)])),
+    ]
+}
+
+fn ops_json(h: &[EOp]) -> serde_json::Value {
+    json!(h.iter().map(|o| format!("{:?}", o)).collect::<Vec<_>>())
+}
+fn ops_from(v: &serde_json::Value) -> Vec<EOp> {
+    let all = all_ops();
+    v.as_array()
+        .map(|a| a.iter().filter_map(|x| x.as_str()).filter_map(|s| all.iter().find(|o| format!("{:?}", o) == s).copied()).collect())
+        .unwrap_or_default()
+}
+
+pub fn recheck(c: &Case) -> Vec<Violation> {
+    let s = EditSubject { wasm: &c.wasm };
+    let h = ops_from(&c.cfg["edits"]);
+    match replay(&s, &h) {
+        Ok((_, fs)) => fs.into_iter().map(|f| Violation::new("C02", f.sig, f.detail, c)).collect(),
+        Err(f) => vec![Violation::new("C02", format!("edit-{}", f.sig), f.detail, c)],
+    }
+}
+
+pub fn run_model(args: &Args, ev: &mut Ev) -> Vec<Violation> {
+    let depth = if args.tier == Tier::Quick { 2 } else { 3 };
+    let bs = bases();
+    let (res, _) = pmap(&bs, args.threads, None, |(_, wasm)| {
+        let s = EditSubject { wasm };
+        explore(&s, depth)
+    });
+    let mut viol = vec![];
+    let mut model = serde_json::Map::new();
+    for ((name, wasm), r) in bs.iter().zip(res.into_iter()) {
+        let (st, found) = r.unwrap();
+        ev.states += st.states;
+        ev.transitions += st.transitions;
+        ev.evaluations += st.transitions;
+        ev.max_depth = ev.max_depth.max(st.max_depth);
+        model.insert(name.clone(), json!({"states": st.states, "transitions": st.transitions, "merged": st.merged}));
+        for f in found {
+            let c = Case { family: "edits".into(), coords: name.clone(), wasm: wasm.clone(), cfg: json!({"edits": ops_json(&f.hist)}) };
+            let sig = if f.finding.sig.starts_with("panic:") { format!("edit-{}", f.finding.sig) } else { f.finding.sig };
+            viol.push(Violation::new("C02", sig, f.finding.detail, &c));
+        }
+    }
+    ev.extra.insert("edit_model".into(), json!({"actions": all_ops().len(), "depth": depth, "bases": model}));
+    viol
+}
